@@ -4,8 +4,8 @@
            became of src (Merge filters it in place), or a panic.
    KSet:   resource.NewValue(WithInitialValue stored, WithWritableFields resw).Set(written,
            WithUpdateMask um, WithMoreUpdateMask moreu, WithResetMask rm, WithMoreWritableFields more,
-           WithAllFieldsWritable) — (more / moreu = None when the option is not used; moreu is always built
-           valid) —
+           WithAllFieldsWritable) — (more / moreu = None when the option is not used; mtag <> 0 also when a
+           path of moreu is corrupt and um is not nil) —
            observed: code, returned message, the next Get.
    mtag / rtag: how the generator built the update / reset mask from the Go descriptor (0 = every path
    valid by construction, k > 0 = one path corrupted in way k). *)
@@ -182,15 +182,21 @@ Definition C05_ok (c : c05case) : bool :=
       end
   end.
 
-(* hypotheses of the theorems: both messages are trees of the type, the configured writable masks and
-   (for an accepted write) all masks are valid for it *)
+(* hypotheses of the theorems: both messages are trees of the type and the configured writable masks are
+   valid for it AFTER NORMALIZATION (Merge only ever uses a normalized copy: an invalid path below a valid
+   path of the writable masks is dropped there, theorem [merge_norm_writable]).  The request masks (update,
+   extra update paths, reset) carry no hypothesis: an invalid path in them must be rejected.  With a nil
+   update mask WithMoreUpdateMask ignores its argument, valid or not. *)
+Definition norm_valid (sch : schema) (ty : string) (m : mask) : bool :=
+  match m with None => true | Some ps => fm_valid sch ty (normalize_paths ps) end.
+
 Definition C05_guard (c : c05case) : bool :=
   match c with
   | KMerge ty um wm rm _ _ dst src _ _ =>
-      conforms the_schema ty dst && conforms the_schema ty src && valid_or the_schema ty wm
+      conforms the_schema ty dst && conforms the_schema ty src && norm_valid the_schema ty wm
   | KSet ty allw resw more um moreu rm _ _ stored written _ _ =>
       conforms the_schema ty stored && conforms the_schema ty written
-      && valid_or the_schema ty resw && valid_or the_schema ty more && valid_or the_schema ty moreu
+      && norm_valid the_schema ty (spec_union allw resw more)
   end.
 
 Definition judge (c : c05case) : Z :=
